@@ -112,6 +112,12 @@ func shouldEscapeTextNode(data string) bool {
 	return helpers.NeedsHTMLEscape(data)
 }
 
+// isBlankText reports whether a text node holds nothing but HTML white space (space, tab, LF, FF, CR), which is
+// layout between tags. Any other character - the no-break space and the other Unicode spaces included - is content.
+func isBlankText(data string) bool {
+	return strings.Trim(data, " \t\n\f\r") == ""
+}
+
 func renderNode(w io.Writer, node *html.Node, indent int) error {
 	ctx := VueContext{}
 	return renderNodeWithContext(ctx, w, node, indent)
@@ -123,7 +129,7 @@ func renderNodeWithContext(ctx VueContext, w io.Writer, node *html.Node, indent 
 		_, _ = w.Write([]byte("<!DOCTYPE " + node.Data + ">\n"))
 
 	case html.TextNode:
-		if strings.TrimSpace(node.Data) == "" {
+		if isBlankText(node.Data) {
 			return nil
 		}
 		spaces := getIndent(indent)
